@@ -228,6 +228,9 @@ func specB(typ proxyv1alpha1.FlowControlSchemaType, k int, base int32) xstate.Sp
 				}
 			}
 			evs = append(evs, "limit down", "limit up")
+			if typ == TB {
+				evs = append(evs, "burst halved", "burst restored") // the global burst alone changes: qps, schema set and type stay
+			}
 			for i := 0; i < k; i++ {
 				evs = append(evs, fmt.Sprintf("forget %d", i))
 			}
@@ -237,6 +240,16 @@ func specB(typ proxyv1alpha1.FlowControlSchemaType, k int, base int32) xstate.Sp
 			s := si.(*sysB)
 			f := strings.Fields(e)
 			switch f[0] {
+			case "burst":
+				if f[1] == "halved" {
+					s.gb = s.limit
+				} else {
+					s.gb = s.limit * 2
+				}
+				if err := s.rig.ApplyCluster(s.cluster()); err != nil {
+					return fmt.Errorf("limit-change-failed: %v", err)
+				}
+				return nil
 			case "limit":
 				if f[1] == "down" {
 					s.limit = s.base / 10
